@@ -20,9 +20,6 @@ REVIEWED = {
         "CMS glue (feature-gated), as above",
     ("JxlImage::render_frame_cropped", "jxl_render::RenderContext::keyframe"):
         "render_keyframe(keyframe_index)? succeeded on the line before, which looked the same keyframe up",
-    ("JxlImage::render_loading_frame_cropped", "jxl_render::RenderContext::frame"):
-        "render_loading_keyframe()? succeeded, so a frame exists: frame(loaded_frames()) is the one still loading, and the or_else "
-        "fallback frame(loaded_frames() - 1) the last complete one",
     ("JxlImage::reconstruct_jpeg", "jxl_oxide::JxlImage::frame"): "jbrd availability was checked; frame 0 exists once the status says Available",
     # jxl_render::RenderContext - the context API that jxl_oxide forwards to
     ("RenderContext::load_frame_header", "field:loading_frame"): "assigned Some(..) on the line before",
@@ -104,4 +101,4 @@ def run(ctx):
                 ctx.bad(rid, key, "Option::%s on a value produced by `%s`: not in the reviewed table - nothing establishes that it cannot be None "
                         "for every input and every moment of a partial load" % (nm.split("::")[-1], src), fn=f, pos=t[-2])
     ctx.count(rid + ".unwraps", n)
-    ctx.floor(rid + ".unwraps", 8)
+    ctx.floor(rid + ".unwraps", 7)
